@@ -32,12 +32,15 @@ def PcrField (s t : Stmt) : Prop :=
     (s.pcrHint = 2 → -128 ≤ pcrJump s y x ∧ pcrJump s y x ≤ 127)
 
 /-- C03 at full strength: every branch of an accepted program whose operand is a label carries the
-displacement the CPU needs; every PCR operand carries `target − (address + size)` in a field wide enough. -/
+displacement the CPU needs; every PCR operand carries `target − (address + size)` in a field wide enough.
+(batch B3: a PCR operand with a label is recognised by its post byte choices, `choices ≠ []`: `needsRes` alone no longer
+singles it out, the label offset of a pointer register — `LDA TABLE,X` — has it too and carries the ADDRESS, see
+`C03_label_offset` in Props/C03Width.) -/
 def C03_Statement : Prop :=
   ∀ (fs : Files) (lines : List Str) (a : Assembly), assemble fs lines = .ok a →
     (∀ (i b : Nat) (m : Mode) (s t : Stmt), a.stmts[i]? = some s → s.operand.kind = .relative →
         s.operand.value = .address b m → a.stmts[b]? = some t → BranchField s t) ∧
-    (∀ (i b : Nat) (m : Mode) (s t : Stmt), a.stmts[i]? = some s → s.pkg.needsRes = true →
+    (∀ (i b : Nat) (m : Mode) (s t : Stmt), a.stmts[i]? = some s → s.pkg.choices ≠ [] →
         s.operand.left = .val (.address b m) → a.stmts[b]? = some t → PcrField s t)
 
 /-! ### the branch field at the level of `fixOne` -/
@@ -231,13 +234,14 @@ theorem C03_bytes {s : Stmt} {bs : Bytes} (h : stmtBytes s = some bs) :
 16-bit form; `target` is what `fixRel` computes (for a plain label: the address of the statement it names) -/
 theorem C03_pcr_fixOne {ss : List Stmt} {i : Nat} {s s' : Stmt} (hk : (s.operand.kind == .relative) = false)
     (hv1 : s.operand.value.isAddrExpr = false) (hv2 : s.operand.value.isAddress = false)
-    (hv3 : s.operand.value ≠ .pyNone) (hn : s.pkg.needsRes = true) (h : fixOne ss i s = .ok s') :
+    (hv3 : s.operand.value ≠ .pyNone) (hn : s.pkg.needsRes = true) (hc : s.pkg.choices.isEmpty = false)
+    (h : fixOne ss i s = .ok s') :
     ∃ target start v, fixRel ss s = .ok target ∧ addrIntOf ss i = some start ∧
       numericOfInt (pcrJump s target start) (some s.pcrHint) .none = .ok v ∧ s' = withAdditional s v ∧
       pcrJump s target start =
         (let d : Int := ((target : Int) - start - s.pkg.size + 0x8000) % 0x10000 - 0x8000   -- signed distance mod 65536
          if s.pcrHint = 4 then d % 65536 else d) := by
-  obtain ⟨r, start, v, h1, h2, h3, h4⟩ := fixOne_pcr hk hv1 hv2 hv3 hn h
+  obtain ⟨r, start, v, h1, h2, h3, h4⟩ := fixOne_pcr hk hv1 hv2 hv3 hn hc h
   exact ⟨r, start, v, h1, h2, h3, h4, rfl⟩
 
 /-- the same for an accepted program, in terms of the statement list `ss4` that enters `fix_addresses`
@@ -246,18 +250,18 @@ statement `t` ends up with `numericOfInt (address t − own address − own size
 theorem C03_pcr {fs : Files} {lines : List Str} {a : Assembly} (h : assemble fs lines = .ok a) :
     ∃ ss4 : List Stmt, PW SameButAdditional ss4 a.stmts ∧
       ∀ (i t : Nat) (s4 s : Stmt), ss4[i]? = some s4 → a.stmts[i]? = some s →
-        s4.pkg.needsRes = true → (s4.operand.kind == .relative) = false → s4.operand.value.isAddrExpr = false →
+        s4.pkg.needsRes = true → s4.pkg.choices.isEmpty = false → (s4.operand.kind == .relative) = false → s4.operand.value.isAddrExpr = false →
         s4.operand.value.isAddress = false → s4.operand.value ≠ .pyNone →
         s4.pkg.additional.isAddrExpr = false → s4.pkg.additional.int? = some t →
         ∃ u x y v, a.stmts[t]? = some u ∧ addrNat s = some x ∧ addrNat u = some y ∧
           numericOfInt (pcrJump s y x) (some s.pcrHint) .none = .ok v ∧ fitWidth (withAdditional s v) = .ok s := by
   obtain ⟨st⟩ := assemble_stages h
   refine ⟨st.ss4, fixAll_pw st.hfix, ?_⟩
-  intro i t s4 s hs4 hs hn hk hv1 hv2 hv3 he ht
+  intro i t s4 s hs4 hs hn hc hk hv1 hv2 hv3 he ht
   obtain ⟨s1, s', hs', hfix, hfit⟩ := (fixAll_ok2 st.hfix).2 i s4 hs4
   rw [hs] at hs'; cases hs'
   rw [Nat.zero_add] at hfix
-  obtain ⟨r, start, v, h1, h2, h3, h4⟩ := fixOne_pcr hk hv1 hv2 hv3 hn hfix
+  obtain ⟨r, start, v, h1, h2, h3, h4⟩ := fixOne_pcr hk hv1 hv2 hv3 hn hc hfix
   rw [fixRel_plain he ht] at h1
   -- the target statement
   cases hat : addrIntOf st.ss4 t with
@@ -356,12 +360,12 @@ theorem C03_partial :
         BranchField s t) ∧
     (∀ (ss : List Stmt) (i : Nat) (s s' : Stmt), (s.operand.kind == .relative) = false →
       s.operand.value.isAddrExpr = false → s.operand.value.isAddress = false → s.operand.value ≠ .pyNone →
-      s.pkg.needsRes = true → fixOne ss i s = .ok s' →
+      s.pkg.needsRes = true → s.pkg.choices.isEmpty = false → fixOne ss i s = .ok s' →
       ∃ target start v, fixRel ss s = .ok target ∧ addrIntOf ss i = some start ∧
         numericOfInt (pcrJump s target start) (some s.pcrHint) .none = .ok v ∧ s' = withAdditional s v) :=
   ⟨fun _ _ _ _ hk hb => C03_diag_iff hk hb,
    fun _ _ _ h _ _ _ _ _ hs hk hv ht hno hsz => C03_branch h hs hk hv ht hno hsz,
-   fun _ _ _ _ hk h1 h2 h3 hn h => fixOne_pcr hk h1 h2 h3 hn h⟩
+   fun _ _ _ _ hk h1 h2 h3 hn hc h => fixOne_pcr hk h1 h2 h3 hn hc h⟩
 
 /-! ### non-vacuity -/
 
